@@ -82,6 +82,12 @@ pub trait SimData: GD + HasHost + Clone {
     fn retain_and_optimize(&mut self) -> bool {
         true
     }
+    /// Basic: retain_all_current_data (what a host does after a build); no-op on Simple
+    fn retain_now(&mut self) {}
+    /// Basic: optimize(&[]) with the retention count as it is; no-op on Simple. false = refused
+    fn optimize_only(&mut self) -> bool {
+        true
+    }
     /// Basic only: the concrete object, for the few operations outside the GarnishData trait
     fn as_any_mut(&mut self) -> Option<&mut dyn std::any::Any> {
         None
@@ -241,6 +247,14 @@ impl SimData for BasicW {
     fn retain_and_optimize(&mut self) -> bool {
         self.retain_all_current_data();
         matches!(crate::world::guarded(|| self.optimize(&[])), Ok(Ok(_)))
+    }
+
+    fn retain_now(&mut self) {
+        self.retain_all_current_data();
+    }
+
+    fn optimize_only(&mut self) -> bool {
+        matches!(self.optimize(&[]), Ok(_))
     }
 
     fn as_any_mut(&mut self) -> Option<&mut dyn std::any::Any> {
